@@ -4,6 +4,7 @@
 // feature agree with the stored values under the documented encodings, missing cells are NaN / -1, targets equal the
 // stored target, and the column bookkeeping is consistent.
 // config: f=<kinds of the input features>;n=<samples>;cls=<classes of 's' features>;rep=<1: sample list reversed with a repetition>;bad=<1: labels of 's' features range over [-70000,70000]>
+//   tdims=1: the target is a structured float64 feature of dims (2, 1, 3) with symbolic components
 //   gen=product: the pairwise product generator is added too; kind E = float32 with concrete decimal values
 //   kinds: a int8, b uint16, c int32, d int64, e float32, r float64, s single-label (cls classes), m multi-label (3 labels)
 #include "sbv.h"
@@ -27,6 +28,8 @@ struct symstore_t final : datasource_t
     std::vector<std::vector<double>>  D; ///< [sample][feature]: floating point value (kinds e, r and the target)
     std::vector<std::vector<int>>     G; ///< [sample][feature]: given (1) or missing (0)
     bool                              bad{false};
+    int                               td1{1}, td2{1}, td3{1};     ///< dims of the (structured) target
+    std::vector<std::vector<double>>  T;                          ///< [sample][component]: structured target values (tdims=1)
     int                               rejected_wrongly{0}, accepted_wrongly{0};
 
     symstore_t(std::string k, tensor_size_t samples, tensor_size_t cls)
@@ -104,7 +107,7 @@ struct symstore_t final : datasource_t
             default: fs.push_back(feature_t{name}.mclass(static_cast<size_t>(3))); break;
             }
         }
-        fs.push_back(feature_t{"target"}.scalar(feature_type::float64));
+        fs.push_back(feature_t{"target"}.scalar(feature_type::float64, make_dims(td1, td2, td3)));
         resize(n, fs, target());
         for (tensor_size_t s = 0; s < n; ++s)
             for (size_t f = 0; f <= kinds.size(); ++f)
@@ -114,7 +117,14 @@ struct symstore_t final : datasource_t
                 const char k  = f < kinds.size() ? kinds[f] : 'r';
                 const auto iv = I[static_cast<size_t>(s)][f];
                 const auto dv = D[static_cast<size_t>(s)][f];
-                if (k == 'm')
+                if (f == kinds.size() && td1 * td2 * td3 > 1)
+                {
+                    // structured target: one symbolic double per component, stored in row-major order of (td1, td2, td3)
+                    tensor_mem_t<double, 3> t(td1, td2, td3);
+                    for (tensor_size_t c = 0; c < t.size(); ++c) t(c) = T[static_cast<size_t>(s)][static_cast<size_t>(c)];
+                    set(s, fi, t);
+                }
+                else if (k == 'm')
                 {
                     tensor_mem_t<int8_t, 1> t(3);
                     for (tensor_size_t c = 0; c < 3; ++c) t(c) = static_cast<int8_t>((iv >> c) & 1);
@@ -159,6 +169,18 @@ extern "C" void sbv_harness(const char*)
 
     symstore_t src(kinds, n, cls);
     src.bad = sbv_cfg("bad", 0) != 0;
+    if (sbv_cfg("tdims", 0))
+    {
+        // tdims=1: a structured target with three different extents (2, 1, 3) instead of a scalar one
+        src.td1 = 2, src.td2 = 1, src.td3 = 3;
+        src.T.assign(static_cast<size_t>(n), std::vector<double>(6, 0.0));
+        for (auto& row : src.T)
+            for (auto& v : row)
+            {
+                sbv_make_symbolic(&v, sizeof(v), "target");
+                sbv_assume(v >= -1e6 && v <= 1e6);
+            }
+    }
     src.make_symbolic();
     src.load();
     if (src.bad)
@@ -294,6 +316,21 @@ extern "C" void sbv_harness(const char*)
     sbv_check(col == ds.columns(), "column blocks add up to columns()");
     tensor4d_t tbuf;
     const auto targ = ds.targets(samples, tbuf);
-    for (tensor_size_t r = 0; r < m; ++r) sbv_check(targ(r, 0, 0, 0) == src.D[static_cast<size_t>(samples(r))][src.target()], "targets equal the stored target values");
+    if (sbv_cfg("tdims", 0))
+    {
+        sbv_check(targ.size<0>() == m && targ.size<1>() == 2 && targ.size<2>() == 1 && targ.size<3>() == 3, "targets view of a structured target has the shape (samples, dims of the target)");
+        const auto td = ds.target_dims();
+        sbv_check(std::get<0>(td) == 2 && std::get<1>(td) == 1 && std::get<2>(td) == 3, "target_dims() reports the dims of the stored target");
+        if (targ.size<0>() == m && targ.size<1>() == 2 && targ.size<2>() == 1 && targ.size<3>() == 3)
+            for (tensor_size_t r = 0; r < m; ++r)
+            {
+                int ok = 1;
+                for (tensor_size_t a = 0; a < 2; ++a)
+                    for (tensor_size_t c = 0; c < 3; ++c) ok &= (targ(r, a, 0, c) == src.T[static_cast<size_t>(samples(r))][static_cast<size_t>(a * 3 + c)]) ? 1 : 0;
+                sbv_check(ok, "targets(sample, a, b, c) = stored component (a, b, c) of the structured target (row-major)");
+            }
+    }
+    else
+        for (tensor_size_t r = 0; r < m; ++r) sbv_check(targ(r, 0, 0, 0) == src.D[static_cast<size_t>(samples(r))][src.target()], "targets equal the stored target values");
     sbv_reach("end of harness");
 }
